@@ -1,6 +1,10 @@
 import Acra.Lemmas.MPEGTS
 import Acra.Model.PMT
 import Acra.Model.PES
+import Acra.Props.C06.MPEGTS
+import Acra.Props.C06.PES
+import Acra.Props.C06.STANAG
+import Acra.Props.C06.PMT
 namespace Acra.Props.C13
 open Acra.Py Acra.Model.MPEGTS Acra.Model.PMT Acra.Model.PES Acra.Lemmas.MPEGTS
 
@@ -15,6 +19,9 @@ theorem Ext_unpack_state_independent (t u : Ext) (buf : Bytes) (n : Nat) (h : (E
   simp only [Ext.unpack]
   repeat' split
   all_goals simp_all
+
+/-- non-vacuity: an extension object with a stale piecewise rate decodes a 4-byte extension (LTW only) -/
+example : (Ext.unpack { Ext.fresh with piecewise_rate_flag := true, piecewise := [7, 7, 7] } [3, 0x9F, 1, 2, 0xEE]).2 = .ok 4 := rfl
 
 /-- the adaptation-field decoder does not read the prior state even when it fails after the first
     two bytes (the partly assigned object is what `MPEGPacket.unpack` keeps) -/
@@ -35,12 +42,23 @@ theorem AF_unpack_state_independent (t u : AF) (buf : Bytes) (h : 2 ≤ buf.leng
     match vs, hl with
     | [a, b], _ => rfl
 
+/-- non-vacuity: an adaptation field with PCR flag and a 6-byte PCR, decoded into two different used objects -/
+example : (2 : Nat) ≤ ([7, 0x10, 1, 2, 3, 4, 5, 6] : Bytes).length ∧
+    (AF.unpack { AF.fresh with splicing_flag := true, splice_countdown := 9 } [7, 0x10, 1, 2, 3, 4, 5, 6]).2 = .ok () ∧
+    (AF.unpack { AF.fresh with splicing_flag := true, splice_countdown := 9 } [7, 0x10, 1, 2, 3, 4, 5, 6]).1.pcr = [1, 2, 3, 4, 5, 6] :=
+  ⟨by decide, rfl, rfl⟩
+
 theorem Pkt_unpack_state_independent (t u : Pkt) (buf : Bytes) (h : (Pkt.unpack t buf).2 = .ok ()) :
     Pkt.unpack t buf = Pkt.unpack u buf := by
   revert h
   simp only [Pkt.unpack]
   repeat' split
   all_goals simp_all
+
+/-- non-vacuity: a packet object holding another PID, payload and adaptation field decodes a packet with a
+    3-byte adaptation field and three payload bytes -/
+example : (Pkt.unpack { Pkt.fresh with pid := 5, payload := [9], adaption_field := some AF.fresh }
+    [0x47, 0, 0, 0x30, 3, 0x10, 0xAA, 0xBB, 1, 2, 3]).2 = .ok () := rfl
 
 /-- `MPEGTS.unpack` never reads the prior state at all -/
 theorem MPEGTS_unpack_state_independent (t u : TS) (buf : Bytes) : TS.unpack t buf = TS.unpack u buf := rfl
@@ -60,6 +78,19 @@ theorem PMT_unpack_state_independent (t u : PMT) (buf : Bytes) (r : Bool) (h : (
       repeat' split
       all_goals simp_all
 
+set_option maxRecDepth 20000 in
+/-- non-vacuity: a PMT with one descriptor and two streams packs to 188 bytes; an object that already lists a
+    stream decodes it -/
+example :
+    let a : PMT := { PMT.fresh with
+      pkt := { Pkt.fresh with adaption_ctrl := 1 }, program_number := 1, pcr_pid := 0x100,
+      descriptor_tags := [{ tag := some 5, data := [1, 2] }],
+      streams := [{ streamtype := 0x1B, elementary_pid := 0x100, elementary_stream_descriptors := [] },
+                  { streamtype := 0x0F, elementary_pid := 0x101, elementary_stream_descriptors := [9, 9, 9] }] }
+    let t : PMT := { PMT.fresh with streams := [{ streamtype := 2, elementary_pid := 3, elementary_stream_descriptors := [] }] }
+    ∃ b, (PMT.pack a).2 = .ok b ∧ b.length = 188 ∧ (PMT.unpack t b).2 = .ok true ∧ (PMT.unpack t b).1.streams = a.streams :=
+  ⟨_, rfl, rfl, rfl, rfl⟩
+
 theorem PES_unpack_state_independent (t u : PES) (buf : Bytes) (h : (PES.unpack t buf).2 = .ok ()) :
     PES.unpack t buf = PES.unpack u buf := by
   revert h
@@ -74,6 +105,12 @@ theorem PES_unpack_state_independent (t u : PES) (buf : Bytes) (h : (PES.unpack 
       simp only
       repeat' split
       all_goals simp_all
+
+set_option maxRecDepth 20000 in
+/-- non-vacuity: the PES packet with optional header of C06 (`headerExample`, 170 data bytes), decoded into a used object -/
+example : ∃ b, (PES.pack C06.headerExample).2 = .ok b ∧ b.length = 188 ∧
+    (PES.unpack { PES.fresh with streamid := 9, pesdata := [1], header_data := some [7] } b).2 = .ok () :=
+  ⟨_, rfl, rfl, rfl⟩
 
 theorem STANAG_unpack_state_independent (t u : STANAG) (buf : Bytes) (h : (STANAG.unpack t buf).2 = .ok ()) :
     STANAG.unpack t buf = STANAG.unpack u buf := by
@@ -90,11 +127,19 @@ theorem STANAG_unpack_state_independent (t u : STANAG) (buf : Bytes) (h : (STANA
       repeat' split
       all_goals simp_all
 
+set_option maxRecDepth 20000 in
+/-- non-vacuity: the STANAG 4609 time-stamp packet of C06 (`stanagExample`), decoded into a used object -/
+example : ∃ b, (STANAG.pack C06.stanagExample).2 = .ok b ∧ b.length = 188 ∧
+    (STANAG.unpack { STANAG.fresh with stanag_counter := 9, time_us := 5 } b).2 = .ok () :=
+  ⟨_, rfl, rfl, rfl⟩
+
 /-! ### pack -/
 
 theorem Ext_pack_idempotent (e : Ext) (h : Ext_WF e) : Ext.pack (Ext.pack e).1 = Ext.pack e := by
   rw [Ext_pack_eq e h, Ext_pack_eq _ (Ext_packed_WF e h)]
   rfl
+
+example : Ext_WF { Ext.fresh with ltw := [1, 2], seamless_splice := [1, 2, 3, 4, 5] } := by decide
 
 theorem AF_packed_idem (a : AF) (h : AF_WF a) : AF_packed (AF_packed a) = AF_packed a := by
   obtain ⟨hw, hb⟩ := AF_packed_WF a h
@@ -109,6 +154,16 @@ theorem AF_packed_idem (a : AF) (h : AF_WF a) : AF_packed (AF_packed a) = AF_pac
 theorem AF_pack_idempotent (a : AF) (h : AF_WF a) : AF.pack (AF.pack a).1 = AF.pack a := by
   obtain ⟨hw, hb⟩ := AF_packed_WF a h
   rw [AF_pack_eq a h, AF_pack_eq _ hw, hb, AF_packed_idem a h]
+
+/-- non-vacuity (`AF_packed_idem`, `AF_pack_idempotent`): PCR, splice countdown, one private byte, an extension with
+    a piecewise rate, and a stale length -/
+example : AF_WF { AF.fresh with pcr := [1, 2, 3, 4, 5, 6], splice_countdown := 7, private_data := [0xAA], length := 40,
+                                adaption_extension := some { Ext.fresh with piecewise := [1, 2, 3] } } := by
+  refine ⟨by decide, by decide, by decide, by decide, ?_, by decide, by decide, by decide, by decide, by decide, by decide⟩
+  intro x hx
+  injection hx with hx
+  subst hx
+  decide
 
 theorem Pkt_pack_idempotent (p : Pkt) (ns : Bool) (h : Pkt_WF p) : Pkt.pack (Pkt.pack p ns).1 ns = Pkt.pack p ns := by
   have hw : Pkt_WF (Pkt_packed p) := by
@@ -148,5 +203,122 @@ theorem Pkt_pack_idempotent (p : Pkt) (ns : Bool) (h : Pkt_WF p) : Pkt.pack (Pkt
   cases ns
   · simp [Pkt_bytes, Pkt_used, e2, e3, e4]
   · simp [Pkt_unstuffed, e2, e3, e4]
+
+/-- non-vacuity: the packet of C06 (`examplePkt`: adaptation field with PCR and private data and a stale length,
+    three payload bytes) is well formed -/
+example : Pkt_WF C06.examplePkt := by
+  refine ⟨by decide, by decide, by decide, by decide, by decide, by decide, ?_⟩
+  intro a ha
+  injection ha with ha
+  subst ha
+  refine ⟨by decide, by decide, by decide, by decide, ?_, by decide, by decide, by decide, by decide, by decide, by decide⟩
+  intro x hx; simp [AF.fresh] at hx
+
+/-! ### pack of the composite classes (added by the rev2 review: these clauses had no theorem) -/
+
+theorem TS_packBlocks_idem (ps : List Pkt) (h : ∀ p ∈ ps, Pkt_WF p) :
+    Acra.Model.MPEGTS.packBlocks (Acra.Model.MPEGTS.packBlocks ps).1 = Acra.Model.MPEGTS.packBlocks ps := by
+  induction ps with
+  | nil => rfl
+  | cons b bs ih =>
+    have hb := Pkt_pack_idempotent b false (h b (by simp))
+    have ih := ih (fun g hg => h g (by simp [hg]))
+    cases hp : Pkt.pack b with
+    | mk b' r =>
+      rw [hp] at hb
+      simp only at hb
+      cases r with
+      | error e => simp only [Acra.Model.MPEGTS.packBlocks, hp, hb]
+      | ok x =>
+        cases hq : Acra.Model.MPEGTS.packBlocks bs with
+        | mk bs' r2 =>
+          rw [hq] at ih
+          simp only at ih
+          cases r2 with
+          | ok y => simp only [Acra.Model.MPEGTS.packBlocks, hp, hq, hb, ih]
+          | error e => simp only [Acra.Model.MPEGTS.packBlocks, hp, hq, hb, ih]
+
+/-- `MPEGTS.pack` twice: same bytes, and the blocks as the first call left them -/
+theorem MPEGTS_pack_idempotent (s : TS) (h : ∀ p ∈ s.blocks, Pkt_WF p) : TS.pack (TS.pack s).1 = TS.pack s := by
+  simp only [TS.pack, TS_packBlocks_idem s.blocks h]
+
+/-- packing, assigning the same payload again and packing again changes nothing (what `PES.pack` / `PMT.pack` do) -/
+theorem Pkt_pack_same_payload (p : Pkt) (pl : Bytes) (ns : Bool) (h : Pkt_WF p) :
+    Pkt.pack { (Pkt.pack { p with payload := pl } ns).1 with payload := pl } ns = Pkt.pack { p with payload := pl } ns := by
+  have hq : Pkt_WF { p with payload := pl } := h
+  have e : ({ (Pkt.pack { p with payload := pl } ns).1 with payload := pl } : Pkt) = (Pkt.pack { p with payload := pl } ns).1 := by
+    rw [Pkt_pack_eq' _ ns hq]
+    unfold Pkt_packed; split <;> rfl
+  rw [e, Pkt_pack_idempotent _ ns hq]
+
+/-- non-vacuity: a stream of two well-formed packets (the C06 examples) -/
+example : ∀ p ∈ ({ blocks := [C06.examplePkt, { Pkt.fresh with pid := 7, payload := [1, 2] }] } : TS).blocks, Pkt_WF p := by
+  intro p hp
+  simp only [List.mem_cons, List.not_mem_nil, or_false] at hp
+  rcases hp with rfl | rfl
+  · refine ⟨by decide, by decide, by decide, by decide, by decide, by decide, ?_⟩
+    intro a ha
+    injection ha with ha
+    subst ha
+    refine ⟨by decide, by decide, by decide, by decide, ?_, by decide, by decide, by decide, by decide, by decide, by decide⟩
+    intro x hx; simp [AF.fresh] at hx
+  · refine ⟨by decide, by decide, by decide, by decide, by decide, by decide, ?_⟩
+    intro a ha; simp [Pkt.fresh] at ha
+
+theorem PES_ext_pkt (s : PES) (q : Pkt) : PES.ext { s with pkt := q } = PES.ext s := rfl
+
+
+/-- `PES.pack` twice: same result, fields as the first call left them (the transport header well formed) -/
+theorem PES_pack_idempotent (s : PES) (h : Pkt_WF s.pkt) : PES.pack (PES.pack s).1 = PES.pack s := by
+  have core : ∀ (len : Nat) (eb : R Bytes),
+      (∀ q : Pkt, PES.pack { s with pkt := q } =
+        (match structPack Acra.Gen.PES.PES_pack_fmt0 [0, 1, s.streamid, len] with
+         | .error e => ({ s with pkt := q }, .error e)
+         | .ok hb =>
+           match eb with
+           | .error e => ({ s with pkt := { q with payload := hb } }, .error e)
+           | .ok x => ({ s with pkt := (Pkt.pack { q with payload := hb ++ x ++ s.pesdata }).1 },
+                       (Pkt.pack { q with payload := hb ++ x ++ s.pesdata }).2))) →
+      PES.pack (PES.pack s).1 = PES.pack s := by
+    intro len eb hq
+    have hs := hq s.pkt
+    rw [show ({ s with pkt := s.pkt } : PES) = s from rfl] at hs
+    cases h0 : structPack Acra.Gen.PES.PES_pack_fmt0 [0, 1, s.streamid, len] with
+    | error e =>
+      simp only [h0] at hs hq
+      rw [hs]; exact hs
+    | ok hb =>
+      cases eb with
+      | error e =>
+        simp only [h0] at hs hq
+        rw [hs, hq]
+      | ok x =>
+        simp only [h0] at hs hq
+        rw [hs, hq, Pkt_pack_same_payload s.pkt _ false h]
+  cases hx : PES.ext s with
+  | none =>
+    refine core s.pesdata.length (.ok []) (fun q => ?_)
+    unfold PES.pack
+    simp only [PES_ext_pkt, hx]
+    rfl
+  | some t =>
+    obtain ⟨w1, w2, hd⟩ := t
+    refine core (3 + s.pesdata.length + hd.length)
+      (match structPack Acra.Gen.PES.PES_pack_fmt1 [w1, w2, hd.length] with
+        | .ok x => .ok (x ++ hd)
+        | .error e => .error e) (fun q => ?_)
+    unfold PES.pack
+    simp only [PES_ext_pkt, hx]
+    rfl
+
+/-- non-vacuity: the transport header of the C06 PES example is well formed -/
+example : Pkt_WF C06.headerExample.pkt := by
+  refine ⟨by decide, by decide, by decide, by decide, by decide, by decide, ?_⟩
+  intro a ha; simp [C06.headerExample, Pkt.fresh] at ha
+
+/- NOT proved (open): `STANAG_pack_idempotent`, `PMT_pack_idempotent`.  Both `pack`s rebuild the payload from fields
+   that `pack` does not modify and end in `PES.pack` / `MPEGPacket.pack`, so the same argument applies
+   (`PES_pack_idempotent`, `Pkt_pack_same_payload`); the case analysis over their four / five nested
+   `struct.pack` calls was not done. -/
 
 end Acra.Props.C13
